@@ -24,7 +24,7 @@ CASES = {"quick": 1200 + PERM_SETS["quick"], "thorough": 12000 + PERM_SETS["thor
 FLOOR = {"quick": 1100, "thorough": 11000}
 FLOOR_COUNTERS = {
     "quick": {"pointer_events": 20000, "gabriel_graphs_checked": 350, "permutation_fits": 24 * 120 + 1000, "periodic_fits": 300, "tie_free_relation_cases": 600},
-    "thorough": {"pointer_events": 400000, "gabriel_graphs_checked": 3500, "permutation_fits": 12 * 5040 + 10000, "periodic_fits": 3000, "tie_free_relation_cases": 6000},
+    "thorough": {"pointer_events": 250000, "gabriel_graphs_checked": 3500, "permutation_fits": 12 * 5040 + 10000, "periodic_fits": 3000, "tie_free_relation_cases": 6000},
 }
 RULE = (
     "case = point set (1-4 dimensions, 2-150 points [<= 60 in Gabriel mode]; generic / collinear / duplicated / lattice), "
@@ -89,10 +89,11 @@ def _dist2(X, cell):
     return (diff**2).sum(-1)
 
 
-def _brute_gabriel(D):
+def _brute_gabriel(D, ta=0.0):
     """(must, may): an edge must exist when no third point is inside or on the boundary of the
     ball spanned by it, may exist when no third point is strictly inside (boundary points, e.g.
-    right angles on a lattice, are decided by rounding)."""
+    right angles on a lattice or duplicates, are decided by rounding; ta = absolute rounding level of a
+    squared distance)."""
     n = len(D)
     must = np.zeros((n, n), bool)
     may = np.zeros((n, n), bool)
@@ -100,8 +101,8 @@ def _brute_gabriel(D):
         lhs = D[i][None, :] + D  # lhs[j, k] = d(i,k) + d(j,k)
         rhs = D[i][:, None]
         with np.errstate(invalid="ignore"):
-            strictly = lhs < rhs * (1 - 1e-12)
-            touching = lhs <= rhs * (1 + 1e-12)
+            strictly = lhs < rhs * (1 - 1e-12) - 3 * ta
+            touching = lhs <= rhs * (1 + 1e-12) + 3 * ta
         for m in (strictly, touching):
             m[:, i] = False
             m[np.arange(n), np.arange(n)] = False
@@ -111,25 +112,30 @@ def _brute_gabriel(D):
     return must, may
 
 
-def _near(vals, idx):
-    """indices (from idx) whose value is within 1e-12 relative of the minimum"""
+def _near(vals, idx, ta=0.0):
+    """indices (from idx) whose value is within rounding (1e-12 relative, ta absolute) of the minimum"""
     v = vals[idx]
     m = v.min()
-    return {int(i) for i, x in zip(idx, v) if x <= m + 1e-12 * max(abs(m), 1e-300)}
+    return {int(i) for i, x in zip(idx, v) if x <= m + 1e-12 * max(abs(m), 1e-300) + 2 * ta}
 
 
-def _successors(D, w, i, case, G, cutsq):
+def _successors(D, w, i, case, G, cutsq, ta=0.0):
+    """Set of admissible successors of i; comparisons that are within rounding of a tie (squared
+    distances are only known to ta absolutely) admit both outcomes."""
     n = len(w)
     higher = np.array([k for k in range(n) if w[k] > w[i]], dtype=int)
     if case["mode"] == "cutoff":
-        if len(higher):
-            ins = higher[D[i, higher] < cutsq[i]]
-            if len(ins):
-                return _near(D[i], ins)
-        others = np.array([k for k in range(n) if k != i], dtype=int)
-        nn = _near(D[i], others)
-        r = {k for k in nn if w[k] > w[i]}
-        return r | ({i} if len(r) < len(nn) else set())  # a tie among nearest neighbours may resolve either way
+        allowed = set()
+        inside_may = higher[D[i, higher] < cutsq[i] + ta] if len(higher) else higher
+        inside_def = higher[D[i, higher] < cutsq[i] - ta] if len(higher) else higher
+        if len(inside_may):
+            allowed |= _near(D[i], inside_may, ta)
+        if not len(inside_def):  # possibly nobody inside the cut-off: nearest-neighbour fall-back
+            others = np.array([k for k in range(n) if k != i], dtype=int)
+            nn = _near(D[i], others, ta)
+            r = {k for k in nn if w[k] > w[i]}
+            allowed |= r | ({i} if len(r) < len(nn) else set())
+        return allowed
     reach = np.zeros(n, bool)
     reach |= G[i]
     for _ in range(1, case["shell"]):
@@ -137,7 +143,7 @@ def _successors(D, w, i, case, G, cutsq):
     cand = np.array([k for k in higher if reach[k]], dtype=int)
     if not len(cand):
         return {i}
-    return _near(D[i], cand)
+    return _near(D[i], cand, ta)
 
 
 def _fit(case, X, w, cuts=None, record=None, graphs=None):
@@ -190,6 +196,8 @@ def run(case, j):
     D = _dist2(X, cell)
     np.fill_diagonal(D, np.inf)
     cutsq = case["cuts"] * case["scale"] ** 2 if case["mode"] == "cutoff" else None
+    # absolute rounding level of a squared distance computed as |a|^2 + |b|^2 - 2ab
+    ta = 1e-12 * max(float((X**2).sum(axis=1).max()), 1e-300) if cell is None else 1e-12 * float((cell**2).sum())
     record, graphs = [], []
     q = j.lib("fit", _fit, case, X, w, None, record, graphs)
     if cell is not None:
@@ -198,7 +206,7 @@ def run(case, j):
     centres = [int(c) for c in q.cluster_centers_idx_]
     G = None
     if case["mode"] == "gabriel":
-        must, may = _brute_gabriel(D)
+        must, may = _brute_gabriel(D, ta)
         gab_ambiguous = bool((must != may).any())
         G = may
         if graphs:
@@ -217,7 +225,7 @@ def run(case, j):
     ptr = {}
     for i, nx in record:
         if i not in succ:
-            succ[i] = _successors(D, w, i, case, G, cutsq)
+            succ[i] = _successors(D, w, i, case, G, cutsq, ta)
         j.ok("every move goes to the nearest strictly higher-weight neighbour the rule allows (or stays)", nx in succ[i], lambda: {"point": i, "moved_to": nx, "allowed": sorted(succ[i]), "w_i": float(w[i]), "w_next": float(w[nx])})
         ptr[i] = nx
         j.note("pointer_events")
@@ -227,7 +235,7 @@ def run(case, j):
     j.ok("every centre labels itself", all(labels[c] == c for c in centres))
     j.close("cluster_centers_ are the centre points", q.cluster_centers_, X[centres], 0.0)
     j.ok("the highest-weight point is a centre", int(np.argmax(w)) in centres, (int(np.argmax(w)), centres))
-    allsucc = {i: succ.get(i) or _successors(D, w, i, case, G, cutsq) for i in range(n)}
+    allsucc = {i: succ.get(i) or _successors(D, w, i, case, G, cutsq, ta) for i in range(n)}
     for c in centres:
         j.ok("a centre has no admissible higher-weight successor", c in allsucc[c], lambda: {"centre": c, "allowed": sorted(allsucc[c])})
     long_path = False
